@@ -57,6 +57,15 @@ def units(tier, seed):
         for sn, bl in (("large-vector", 0.4 + 0.55 * np.arange(m)[::-1]), ("default", None)):
             names = dict(shape="%dx%d" % (m, n), A="asc/8", bounds="ub-finite", K="default", baseline=sn, weights="default")
             out.append(dict(model="excitation", names=names, tier=tier, spec=B.spec_of(A, np.zeros(n), 1.0 + np.arange(n) / 4.0, None, bl), more_outside=True))
+    # excitation model with non-unit receptor weights: the weighted objective is not documented, but a zero error is optimal under any
+    # weighting, so in-gamut targets must still be reproduced (and the bounds respected)
+    for (m, n) in [(2, 2), (2, 3), (3, 3)]:
+        A = AL.A_palette(m, n, seed=seed, seeded=False)[0][1]
+        for bn, kn, sn in (("ub-finite", "default", "vector"), ("lb-mixed", "vector", "scalar")):
+            bm = {b[0]: b for b in AL.bounds_menu(n)}[bn]
+            names = dict(shape="%dx%d" % (m, n), A="asc", bounds=bn, K=kn, baseline=sn, weights="vector")
+            out.append(dict(model="excitation", names=names, tier=tier, in_gamut_only=True,
+                            spec=B.spec_of(A, bm[1], bm[2], dict(AL.K_menu(m))[kn], dict(AL.baseline_menu(m))[sn], AL.w_menu(m)[1][1])))
     out.sort(key=lambda u: 0 if u["model"] == "excitation" else 1)
     return out
 
@@ -97,6 +106,11 @@ def run_unit(unit, rec):
     m, n = Abar.shape
     bounded = bool(np.all(np.isfinite(hi)))
     T, ext = _targets(Abar, c0, lo, hi, few=(model == "excitation" and tier == "quick"))
+    if unit.get("in_gamut_only"):
+        mg0 = O.zono_margin(np.array([t[1] for t in T]), Abar, c0, lo, hi)
+        T = [t for t, g in zip(T, mg0) if g >= 2e-2]
+        X_ = AL.lattice(lo, hi, (0.2, 0.5, 0.8))
+        T += [("interior", c0 + Abar @ x) for x in X_[:: max(1, len(X_) // 5)][:5]]
     if unit.get("more_outside"):
         cen = c0 + Abar @ ((lo + hi) / 2)
         for k in range(m):
@@ -161,7 +175,7 @@ def run_unit(unit, rec):
                     if not ok:
                         _v(rec, "b", dict(sig, what="suboptimal"), "Poisson NLL %.6g exceeds the certified optimum %.6g by more than %.2g" % (val, low, tol), case,
                            observed=dict(X=x, nll=val), expected=dict(X=xs, nll_lower_bound=low, target=t), script=_script(spec, t, model))
-        else:
+        elif not unit.get("in_gamut_only"):
             val = float(np.max(np.abs(O.excitation(t) - O.excitation(q))))
             tstar = O.excitation_opt(Abar, c0, t, lo, hi)
             if in_regime:
@@ -175,6 +189,8 @@ def run_unit(unit, rec):
         if ingamut and in_regime:
             dev = float(np.max(np.abs(q - t)))
             tol_e = 5e-2 if model == "poisson" else 2e-3 * float(np.max((1 + t) * (1 + q))) + 1e-3
+            if unit.get("in_gamut_only"):
+                rec.outcome("weighted-excitation-in-gamut/%s" % ("reproduced" if dev <= tol_e else "not-reproduced"))
             if dev > tol_e:
                 _v(rec, "e", dict(sig, what="in-gamut-not-reproduced"), "in-gamut target (margin %.3g) not reproduced by the %s model (max deviation %.4g)" % (mg[idx], model, dev), case,
                    observed=q, expected=t, script=_script(spec, t, model))
